@@ -26,6 +26,23 @@ func isIntrinsicKey(key string) bool {
 	return strings.HasPrefix(key, "sync/atomic.")
 }
 
+// compParts splits "H.<pkg>.<Type>.<field...>" into the short type name "<pkg>.<Type>" and the field path.
+func compParts(comp string) (string, string, bool) {
+	parts := strings.Split(comp, ".")
+	if len(parts) < 4 {
+		return "", "", false
+	}
+	return parts[1] + "." + parts[2], strings.Join(parts[3:], "."), true
+}
+
+// tshort: "a/b/pkg.Type" -> "pkg.Type"
+func tshort(full string) string {
+	if i := strings.LastIndex(full, "/"); i >= 0 {
+		return full[i+1:]
+	}
+	return full
+}
+
 type monRef struct {
 	ts  *TypeSpec
 	mon *MonitorSpec
@@ -34,17 +51,12 @@ type monRef struct {
 
 // monitorOf finds the monitor declaration for lock component "H.Type.field".
 func (t *FnTrans) monitorOfComp(comp string) *monRef {
-	parts := strings.Split(comp, ".")
-	if len(parts) < 3 {
+	tname, field, ok := compParts(comp)
+	if !ok {
 		return nil
 	}
-	tname, field := parts[1], strings.Join(parts[2:], ".")
 	for name, ts := range t.eng.specs.Types {
-		short := name
-		if i := strings.LastIndex(short, "/"); i >= 0 {
-			short = short[i+1:]
-		}
-		if short != tname {
+		if tshort(name) != tname {
 			continue
 		}
 		for _, m := range ts.Monitors {
@@ -138,10 +150,7 @@ func (t *FnTrans) lockOrder(comp string, mon *monRef) {
 		return
 	}
 	for name, ts := range t.eng.specs.Types {
-		short := name
-		if i := strings.LastIndex(short, "/"); i >= 0 {
-			short = short[i+1:]
-		}
+		short := tshort(name)
 		for _, m := range ts.Monitors {
 			if m.Level == 0 || m.Level < mon.mon.Level {
 				continue
@@ -163,7 +172,7 @@ func itoa(i int) string { return sprintf("%d", i) }
 // guardedComps: heap components (and their sorts) of the fields guarded by the monitor.
 func (t *FnTrans) guardedComps(mon *monRef, ownerComp string) []string {
 	var out []string
-	tname := strings.Split(ownerComp, ".")[1]
+	tname, _, _ := compParts(ownerComp)
 	for _, g := range mon.mon.Guards {
 		out = append(out, "H."+tname+"."+g)
 	}
@@ -174,9 +183,27 @@ func (t *FnTrans) acquire(mon *monRef, ref string) {
 	if mon == nil {
 		return
 	}
-	tname := shortName(mon.ts.Name)
+	tname := tshort(mon.ts.Name)
+	if t.ct != nil && t.ct.Opts["sequential"] != "" {
+		// sequential proof variant: no other goroutine exists, guarded state keeps its value;
+		// the monitor invariant holds whenever the lock is free
+		t.assumeMonitorInv(mon, ref)
+		return
+	}
 	// other goroutines may have changed the guarded fields: havoc them at this object
 	for _, g := range mon.mon.Guards {
+		if strings.HasPrefix(g, "global:") {
+			// ghost global protected by this monitor (single-owner assumption, listed)
+			pkg := mon.ts.Name[:strings.LastIndex(mon.ts.Name, ".")]
+			name := g[len("global:"):]
+			gs, ok := t.eng.specs.Ghosts[pkg+"."+name]
+			if !ok {
+				t.fail("monitor of %s guards unknown ghost global %s", mon.ts.Name, name)
+			}
+			c := t.comp("GG."+pkg+"."+name, gs)
+			t.cur.H[c] = t.newConst(c+"@acq", gs)
+			continue
+		}
 		c, s, ok := t.guardComp(mon, tname, g)
 		if !ok {
 			continue
@@ -199,7 +226,7 @@ func (t *FnTrans) release(mon *monRef, ref string) {
 	}
 	for i, inv := range mon.mon.Inv {
 		env := t.monEnv(mon, ref)
-		t.oblige("mon.release", env.evalBool(inv.E), sprintf("monitor invariant %d of %s at release: %s", i+1, shortName(mon.ts.Name), inv.Text))
+		t.oblige("mon.release", env.evalBool(inv.E), sprintf("monitor invariant %d of %s at release: %s", i+1, tshort(mon.ts.Name), inv.Text))
 	}
 }
 
@@ -284,13 +311,12 @@ func (t *FnTrans) checkGuarded(p *Ptr, write bool) {
 	if t.noGuardCheck || p == nil || p.Kind != "field" {
 		return
 	}
-	parts := strings.Split(p.Comp, ".")
-	if len(parts) < 3 {
+	tname, field, ok := compParts(p.Comp)
+	if !ok {
 		return
 	}
-	tname, field := parts[1], parts[2]
 	for name, ts := range t.eng.specs.Types {
-		if shortName(name) != tname && !strings.HasSuffix(name, "."+tname) {
+		if tshort(name) != tname {
 			continue
 		}
 		for _, m := range ts.Monitors {
@@ -332,7 +358,7 @@ func (t *FnTrans) condIntrinsic(kind string, c *ssa.CallCommon, args []Val, res 
 	}
 	var mon *monRef
 	for name, ts := range t.eng.specs.Types {
-		if shortName(name) != tname {
+		if tshort(name) != tname {
 			continue
 		}
 		for _, m := range ts.Monitors {
@@ -380,11 +406,11 @@ func (t *FnTrans) condField(v ssa.Value) (string, string, string) {
 		return "", "", ""
 	}
 	p := t.ptrOf(fa)
-	parts := strings.Split(p.Comp, ".")
-	if len(parts) != 3 {
+	tn, f, ok := compParts(p.Comp)
+	if !ok {
 		return "", "", ""
 	}
-	return parts[2], p.Ref, parts[1]
+	return f, p.Ref, tn
 }
 
 // ---------- sync/atomic ----------
@@ -516,8 +542,15 @@ func (t *FnTrans) intrinsicWrites(key string, c *ssa.CallCommon, l *loopInfo) bo
 	}
 	t.w(l, "L"+comp[1:], "(Array Int Int)")
 	if mon := t.monitorOfComp(comp); mon != nil {
-		tname := strings.Split(comp, ".")[1]
+		tname, _, _ := compParts(comp)
 		for _, g := range mon.mon.Guards {
+			if strings.HasPrefix(g, "global:") {
+				pkg := mon.ts.Name[:strings.LastIndex(mon.ts.Name, ".")]
+				if gs, ok := t.eng.specs.Ghosts[pkg+"."+g[len("global:"):]]; ok {
+					t.w(l, "GG."+pkg+"."+g[len("global:"):], gs)
+				}
+				continue
+			}
 			if c2, s, ok := t.guardComp(mon, tname, g); ok {
 				t.w(l, c2, s)
 			}
